@@ -41,7 +41,7 @@
 //! Oracle: a PaymentFailed the handler never accepted before the crash is delivered after the restart.  VERIF_C10_EVT="n_pay:closer_t:k:mgr_pt:second".
 //! Interception worlds (`run_icpt_world`): node 1 of a line 0-1-2 intercepts forwards (htlc_interception_flags) and holds 1-4 HTLCs; its handler accepts a
 //! prefix of the HTLCIntercepted events; the application forwards / fails some; manager written; crash + restart (production path), optionally repeated.  Op line
-//!   icpt (i<id>:<hash>:<in|->:<out>:<cltv>:<scid> | h<k> | r<id> | p | c)* -> held=<ids> queue=<id/scid/hash/in/out/expiry,..> told=<ids>      (Restart.irun)
+//!   icpt (i<id>:<hash>:<in|->:<out>:<cltv>:<scid> | h<k> | r<id> | b<height> | p | c)* -> held=<ids> queue=<id/scid/hash/in/out/expiry,..> told=<ids>      (Restart.irun)
 //! Oracles: after every restart each held HTLC has a pending HTLCIntercepted equal to the first one; the events delivered after the last restart name every held
 //! HTLC; what the application is told about can be forwarded and every payment reaches its terminal event at the payer.  VERIF_C10_ICPT="<key>|all".
 //! Repaired KF-C10-6 (HARD oracles): in the world loop the read must never fail back an HTLC that the monitor copy of a channel closed as
@@ -917,7 +917,7 @@ fn main() {
 	}
 	{
 		let (n_ic, ic_errs, ic_held) = if probes_only && std::env::var("VERIF_C10_ICPT").is_err() { (0, 0, 0) } else { icpt_family(&mut rec, args) };
-		rec.notes.insert("interception_worlds".into(), format!("{} worlds (a forwarding node holding 1-4 intercepted HTLCs; its handler accepts a prefix of the HTLCIntercepted events and replays the rest, the application forwards / fails some, the manager is written, crash, restart on the production reload path, optionally repeated); {} could not be set up; {} held HTLCs checked for a pending HTLCIntercepted event right after a restart; every world ends with the application forwarding what it was told about and every payment reaching its terminal event at the payer", n_ic, ic_errs, ic_held));
+		rec.notes.insert("interception_worlds".into(), format!("{} worlds (a forwarding node holding 1-4 intercepted HTLCs; its handler accepts a prefix of the HTLCIntercepted events and replays the rest, the application forwards / fails some, the manager is written, crash, restart on the production reload path, optionally repeated); {} could not be set up; {} held HTLCs checked for a pending HTLCIntercepted event right after a restart, {} held HTLCs failed back by the expiry sweep (blocks connected to the fail-back deadline of the first-expiring held HTLC / one short of it); every world ends with the application forwarding what it was told about and every payment reaching its terminal event at the payer", n_ic, ic_errs, ic_held / 1000, ic_held % 1000));
 	}
 	// end-to-end probes of the repaired stale-manager holding-cell fail-back (HARD oracles): forwarded HTLC and own payment
 	for (own, by_timeout, name) in [(false, false, "kf6_probe"), (true, false, "kf6_probe_own_payment"), (false, true, "kf6_probe_timeout"), (true, true, "kf6_probe_own_payment_timeout")] {
@@ -1243,6 +1243,7 @@ fn evt_family(rec: &mut Rec, args: &Args) -> (u64, u64, u64) {
 /// (`htlc_interception_flags = ToInterceptSCIDs`).  Ops: `I` node 0 pays node 2 over an intercept SCID of t, everything is delivered, t decodes
 /// and holds the HTLC (entry in pending_intercepted_htlcs + Event::HTLCIntercepted); `H k` t's event handler accepts the first k HTLCIntercepted
 /// events and returns Err(ReplayEvent) for the next; `R j fwd` the application forwards / fails the j-th HTLC it was told about;
+/// `B e` blocks are connected up to the fail-back deadline (outgoing expiry - HTLC_FAIL_BACK_BUFFER) of the held HTLC that expires first (e = 1) / one block short (e = 0);
 /// `P` the ChannelManager is written; `C` crash, restart from the last written manager and the current monitors (production reload path),
 /// peers reconnect.  Only `H` ops stand between a `P` and the following `C` (the written manager is never older than the monitors: no channel is
 /// closed), and after the first crash handlers accept nothing or everything (the order of regenerated events follows a HashMap).
@@ -1251,10 +1252,10 @@ fn evt_family(rec: &mut Rec, args: &Args) -> (u64, u64, u64) {
 /// the last restart name every held HTLC; the application then forwards what it was told about, the recipient claims, and every payment reaches
 /// PaymentSent (forwarded) / PaymentFailed (failed by the application) at the payer.  VERIF_C10_ICPT="<world key>" replays one world ("all" with VERIF_C10_PROBES_ONLY=1: this family only).
 #[derive(Clone, Copy, Debug, PartialEq)]
-enum IcOp { I, H(usize), R(usize, bool), P, C }
+enum IcOp { I, H(usize), R(usize, bool), B(bool), P, C }
 
 fn icpt_key(ops: &[IcOp]) -> String {
-	ops.iter().map(|o| match o { IcOp::I => "I".to_string(), IcOp::H(k) => format!("H{}", k), IcOp::R(j, f) => format!("R{}{}", j, if *f { "f" } else { "x" }), IcOp::P => "P".into(), IcOp::C => "C".into() }).collect::<Vec<_>>().join(".")
+	ops.iter().map(|o| match o { IcOp::I => "I".to_string(), IcOp::H(k) => format!("H{}", k), IcOp::R(j, f) => format!("R{}{}", j, if *f { "f" } else { "x" }), IcOp::B(e) => format!("B{}", *e as u8), IcOp::P => "P".into(), IcOp::C => "C".into() }).collect::<Vec<_>>().join(".")
 }
 
 fn dbg_field<'a>(l: &'a str, name: &str) -> Option<&'a str> {
@@ -1295,7 +1296,7 @@ fn icpt_settle(net: &mut Net, t: usize) {
 	}
 }
 
-fn run_icpt_world(ops: &[IcOp], rec: &mut Rec, seed: u64, regen_total: &mut u64) -> Result<(), String> {
+fn run_icpt_world(ops: &[IcOp], rec: &mut Rec, seed: u64, regen_total: &mut u64, swept: &mut u64) -> Result<(), String> {
 	use lightning::events::{EventsProvider, ReplayEvent};
 	use lightning::ln::channelmanager::{InterceptId, PaymentId};
 	use lightning::ln::functional_test_utils::{get_payment_preimage_hash, test_legacy_channel_config};
@@ -1324,6 +1325,7 @@ fn run_icpt_world(ops: &[IcOp], rec: &mut Rec, seed: u64, regen_total: &mut u64)
 	let mut told: Vec<String> = vec![];                       // ids the handler accepted since the last restart
 	let mut disk: Option<Vec<u8>> = None;
 	let mut crashed = false;
+	let mut blocks_connected = false;
 	let show = |net: &Net, told: &Vec<String>| -> String {
 		let h: Vec<String> = icpt_held(net, t).iter().map(|x| hex48(&x.0).to_string()).collect();
 		let q: Vec<String> = icpt_events(net, t).into_iter().map(|x| x.1).collect();
@@ -1387,6 +1389,31 @@ fn run_icpt_world(ops: &[IcOp], rec: &mut Rec, seed: u64, regen_total: &mut u64)
 				icpt_settle(&mut net, t);
 				toks.push(format!("r{}", hex48(&idh)));
 			},
+			IcOp::B(edge) => {
+				// blocks up to the height at which the expiry sweep must fail back the held HTLC that expires first (edge) / one block short of it
+				use lightning::chain::channelmonitor::HTLC_FAIL_BACK_BUFFER;
+				use lightning::ln::functional_test_utils::connect_blocks;
+				let held = icpt_held(&net, t);
+				if held.is_empty() { continue; }
+				let cltv_of = |h: &(String, u64, String, String, String)| h.4.parse::<u32>().unwrap_or(0);
+				let boundary = held.iter().map(|h| cltv_of(h)).min().unwrap().saturating_sub(HTLC_FAIL_BACK_BUFFER);
+				let target = if edge { boundary } else { boundary.saturating_sub(1) };
+				if target <= net.nodes[t].best_block_info().1 { continue; }
+				for i in 0..net.nodes.len() { let cur = net.nodes[i].best_block_info().1; if target > cur { connect_blocks(&net.nodes[i], target - cur); } }
+				net.pump_all();
+				icpt_settle(&mut net, t);
+				let ht = net.nodes[t].best_block_info().1;
+				let after = icpt_held(&net, t);
+				for h in &held {
+					let due = ht + HTLC_FAIL_BACK_BUFFER >= cltv_of(h);
+					let still = after.iter().any(|a| a.0 == h.0);
+					if due && still { rec.oracle_fail(format!("{}: op {}: intercepted HTLC {} is still held at height {} although its outgoing expiry {} is within HTLC_FAIL_BACK_BUFFER = {} blocks: it is not failed back in time", tag, n_op, &h.0[..12], ht, cltv_of(h), HTLC_FAIL_BACK_BUFFER)); }
+					if !due && !still { rec.oracle_fail(format!("{}: op {}: intercepted HTLC {} was dropped at height {} although its outgoing expiry {} is more than HTLC_FAIL_BACK_BUFFER = {} blocks away and the application did not resolve it", tag, n_op, &h.0[..12], ht, cltv_of(h), HTLC_FAIL_BACK_BUFFER)); }
+					if !still { failed_by_app.insert(pay_of[&h.0]); *swept += 1; }
+				}
+				blocks_connected = true;
+				toks.push(format!("b{}", ht));
+			},
 			IcOp::P => { disk = Some(net.nodes[t].node.encode()); toks.push("p".into()); },
 			IcOp::C => {
 				let mgr = match &disk { Some(m) => m.clone(), None => return Err("crash before the first write".into()) };
@@ -1446,9 +1473,12 @@ fn run_icpt_world(ops: &[IcOp], rec: &mut Rec, seed: u64, regen_total: &mut u64)
 			let sent = net.events[0].iter().any(|e| matches!(e, Event::PaymentSent { payment_id: Some(pid), .. } if *pid == id));
 			let failed = net.events[0].iter().any(|e| matches!(e, Event::PaymentFailed { payment_id, .. } if *payment_id == id));
 			let want_failed = failed_by_app.contains(&p);
-			if want_failed && sent || !want_failed && failed || !(sent || failed) {
+			// once blocks were connected up to (one short of) a fail-back deadline, a forward may legitimately be refused downstream (expiry too soon) and be
+			// failed back: then only "exactly one terminal event" is required
+			let bad = if blocks_connected && !want_failed { sent == failed } else { want_failed && sent || !want_failed && failed || !(sent || failed) };
+			if bad {
 				rec.oracle_fail(format!("{}: payment {} ({}) ends with PaymentSent={} PaymentFailed={} at the payer after the intercepting node restarted, the application handled every event it was given and the recipient claimed what arrived",
-					tag, hex(&net.pays[p].hash.0[..4]), if want_failed { "failed by the application with fail_intercepted_htlc" } else { "forwarded by the application with forward_intercepted_htlc" }, sent, failed));
+					tag, hex(&net.pays[p].hash.0[..4]), if want_failed { "failed back: fail_intercepted_htlc by the application / expiry sweep" } else { "forwarded by the application with forward_intercepted_htlc" }, sent, failed));
 			}
 		}
 	}
@@ -1474,6 +1504,11 @@ fn icpt_family(rec: &mut Rec, args: &Args) -> (u64, u64, u64) {
 		vec![I, I, H(1), P, C, I, H(9), P, C],  // second round: everything handled, a third HTLC, crash: three regenerated
 		vec![I, P, C, I, H(0), P, C],
 		vec![I, I, H(1), P],                    // no crash: the live queue
+		vec![I, B(false), P, C],                // one block short of the fail-back deadline: still held, event regenerated
+		vec![I, B(true), P, C],                 // at the deadline: failed back by the sweep, nothing held
+		vec![I, I, H(1), B(true), P, C],
+		vec![I, B(true), I, H(0), B(false), P, C],
+		vec![I, H(1), P, C, B(false), I, P, C, B(true), P, C],
 	];
 	let mut rng = Rng::new(args.seed ^ 0x1C97);
 	let n_random = if args.thorough { 240 } else { 40 };
@@ -1486,7 +1521,7 @@ fn icpt_family(rec: &mut Rec, args: &Args) -> (u64, u64, u64) {
 				match rng.below(6) {
 					0 | 1 | 2 if n_i < 4 => { w.push(I); n_i += 1; },
 					3 => w.push(H(if crashed { if rng.chance(1, 2) { 0 } else { 9 } } else { rng.below(3) as usize })),
-					4 => w.push(R(rng.below(3) as usize, rng.chance(1, 2))),
+					4 => if rng.chance(1, 3) { w.push(B(rng.chance(1, 2))) } else { w.push(R(rng.below(3) as usize, rng.chance(1, 2))) },
 					_ => if n_i < 4 { w.push(I); n_i += 1; },
 				}
 			}
@@ -1499,19 +1534,19 @@ fn icpt_family(rec: &mut Rec, args: &Args) -> (u64, u64, u64) {
 		worlds.push(w);
 	}
 	let only = std::env::var("VERIF_C10_ICPT").ok();
-	let (mut n, mut errs, mut regen) = (0u64, 0u64, 0u64);
+	let (mut n, mut errs, mut regen, mut swept) = (0u64, 0u64, 0u64, 0u64);
 	for w in worlds {
 		let key = icpt_key(&w);
 		if let Some(o) = &only { if o != "all" && *o != key { continue; } }
 		n += 1;
 		let seed = rng.next();
-		match guarded(AssertUnwindSafe(|| run_icpt_world(&w, rec, seed, &mut regen))) {
+		match guarded(AssertUnwindSafe(|| run_icpt_world(&w, rec, seed, &mut regen, &mut swept))) {
 			Ok(Ok(())) => {},
 			Ok(Err(e)) => { errs += 1; rec.discarded += 1; if std::env::var("VERIF_TRACE").is_ok() { eprintln!("interception world {} could not be set up: {}", key, e); } },
 			Err(p) => rec.oracle_fail(format!("interception world [VERIF_C10_ICPT={}] (seed {}): panic: {}", key, seed, p.chars().take(300).collect::<String>())),
 		}
 	}
-	(n, errs, regen)
+	(n, errs, regen * 1000 + swept.min(999))
 }
 
 // =====================================================================================================================
